@@ -739,6 +739,156 @@ impl<'a> Ctx<'a> {
     }
 }
 
+impl<'a> Ctx<'a> {
+    fn new_group(&mut self, child: Node) -> Node {
+        // the group number is taken when the parenthesis opens, i.e. before any group inside
+        // `child` was numbered: callers must reserve it first (see `group_around`)
+        Node::Group(Box::new(child))
+    }
+
+    /// `( inner )` where `inner` is built by `f` *after* the group's number was reserved.
+    fn group_around(&mut self, f: impl FnOnce(&mut Self) -> Node) -> Node {
+        let g = self.next_group;
+        self.next_group += 1;
+        let c = f(self);
+        self.closed.push(g);
+        self.new_group(c)
+    }
+
+    /// An expression that can match the empty string (and often something else too).
+    fn nullable(&mut self, depth: usize) -> Node {
+        match self.rng.below(9) {
+            0 | 1 => Node::Repeat {
+                child: Box::new(self.atom_simple()),
+                lo: 0,
+                hi: if self.rng.chance(1, 2) { None } else { Some(self.rng.range(1, 2)) },
+                kind: if self.rng.chance(1, 3) { Kind::Lazy } else { Kind::Greedy },
+            },
+            2 => Node::Alt(if self.rng.chance(1, 2) { vec![self.atom_simple(), Node::Empty] } else { vec![Node::Empty, self.atom_simple()] }),
+            3 => Node::Empty,
+            4 if self.cfg.allow_look => Node::Look {
+                child: Box::new(self.atom_simple()),
+                ahead: true,
+                neg: self.rng.chance(1, 2),
+            },
+            5 => Node::Anchor(*self.rng.pick(ANCHORS)),
+            6 if depth > 0 => {
+                let a = self.nullable(depth - 1);
+                let b = self.nullable(depth - 1);
+                Node::Concat(vec![a, b])
+            }
+            7 if depth > 0 => self.group_around(|c| c.nullable(depth - 1)),
+            _ => Node::Repeat {
+                child: Box::new(self.atom_simple()),
+                lo: 0,
+                hi: None,
+                kind: Kind::Greedy,
+            },
+        }
+    }
+
+    /// A body for an unbounded repeat whose emptiness is what the loop lowering depends on.
+    fn loop_body(&mut self, depth: usize) -> Node {
+        for _ in 0..6 {
+            match self.rng.below(10) {
+                0 | 1 if !self.closed.is_empty() && self.named.is_empty() => {
+                    return Node::Backref(*self.rng.pick(&self.closed));
+                }
+                2 if !self.closed.is_empty() && self.named.is_empty() => {
+                    let b = Node::Backref(*self.rng.pick(&self.closed));
+                    let other = if self.rng.chance(1, 2) { self.nullable(depth) } else { self.atom_simple() };
+                    return if self.rng.chance(1, 2) { Node::Alt(vec![b, other]) } else { Node::Concat(vec![b, other]) };
+                }
+                3 if self.cfg.allow_cond && !self.closed.is_empty() && self.named.is_empty() => {
+                    let g = *self.rng.pick(&self.closed);
+                    let yes = if self.rng.chance(1, 2) { self.nullable(depth) } else { self.atom_simple() };
+                    let no = if self.rng.chance(1, 2) { Some(Box::new(if self.rng.chance(1, 2) { self.nullable(depth) } else { self.atom_simple() })) } else { None };
+                    return Node::CondGroup(g, Box::new(yes), no);
+                }
+                4 if self.cfg.allow_cond => {
+                    let c = self.atom_simple();
+                    let yes = if self.rng.chance(1, 2) { self.nullable(depth) } else { self.atom_simple() };
+                    let no = if self.rng.chance(1, 2) { self.nullable(depth) } else { self.atom_simple() };
+                    return Node::CondExpr(Box::new(c), Box::new(yes), Box::new(no));
+                }
+                5 => return self.nullable(depth),
+                6 => return self.group_around(|c| c.nullable(depth)),
+                7 if self.cfg.allow_atomic => return Node::Atomic(Box::new(self.nullable(depth))),
+                8 => {
+                    let a = self.nullable(depth);
+                    let b = if self.rng.chance(1, 2) { self.nullable(depth) } else { self.expr(1) };
+                    return Node::Alt(vec![a, b]);
+                }
+                _ => return self.expr(depth.max(1)),
+            }
+        }
+        self.nullable(depth)
+    }
+
+    /// prefix with (possibly nested) groups whose parts may be empty, then an unbounded repeat of a
+    /// body that refers back to them, then a short suffix
+    fn loop_pattern(&mut self) -> Node {
+        let mut parts = Vec::new();
+        match self.rng.below(6) {
+            0 => parts.push(self.group_around(|c| c.nullable(1))),
+            1 | 2 => {
+                // nested: ((nullable) non-nullable) or (non-nullable (nullable))
+                let inner_first = self.rng.chance(1, 2);
+                parts.push(self.group_around(|c| {
+                    let inner = c.group_around(|c| c.nullable(1));
+                    let solid = c.atom_simple();
+                    Node::Concat(if inner_first { vec![inner, solid] } else { vec![solid, inner] })
+                }));
+            }
+            3 => parts.push(self.group_around(|c| {
+                let inner = c.group_around(|c| c.atom_simple());
+                let other = c.nullable(1);
+                Node::Alt(vec![inner, other])
+            })),
+            4 => {
+                parts.push(self.group_around(|c| c.atom_simple()));
+                parts.push(self.group_around(|c| c.nullable(1)));
+            }
+            _ => {}
+        }
+        let body = self.loop_body(1);
+        let lo = *self.rng.pick(&[0usize, 0, 1, 1, 2]);
+        let kind = match self.rng.below(5) {
+            0 | 1 | 2 => Kind::Greedy,
+            3 => Kind::Lazy,
+            _ => if self.cfg.allow_atomic && !body.facts().cond { Kind::Possessive } else { Kind::Greedy },
+        };
+        parts.push(Node::Repeat { child: Box::new(body), lo, hi: None, kind });
+        match self.rng.below(4) {
+            0 => parts.push(self.atom_simple()),
+            1 if !self.closed.is_empty() && self.named.is_empty() => parts.push(Node::Backref(*self.rng.pick(&self.closed))),
+            2 => parts.push(Node::Anchor("$")),
+            _ => {}
+        }
+        if parts.len() == 1 {
+            parts.pop().unwrap()
+        } else {
+            Node::Concat(parts)
+        }
+    }
+}
+
+/// Workload aimed at the loop lowering: an unbounded repeat whose body may or may not be able to
+/// match the empty string (backreferences to nested / optional groups, conditionals, look-arounds,
+/// alternations with an empty arm ...), after a prefix that sets up the groups it refers to.
+pub fn gen_loop_pattern(rng: &mut Rng, cfg: &GenCfg) -> Node {
+    let mut ctx = Ctx {
+        rng,
+        cfg,
+        closed: Vec::new(),
+        named: Vec::new(),
+        next_group: 1,
+        in_atomic: false,
+        in_look: false,
+    };
+    ctx.loop_pattern()
+}
+
 /// Generate one pattern AST. Groups are numbered from 1 in opening order.
 pub fn gen_pattern(rng: &mut Rng, cfg: &GenCfg) -> Node {
     let depth = rng.range(1, cfg.max_depth);
